@@ -371,15 +371,25 @@ class RunArm(Arm):
     budget = {"quick": 400, "thorough": 4000}
     min_per_shard = 10
     case_timeout = 120
-    required_labels = ("euler", "scipy", "delay_not_multiple_of_dt", "coarse_sampling", "backend:torch:scipy", "backend:jax:scipy")
+    required_labels = ("euler", "scipy", "delay_not_multiple_of_dt", "coarse_sampling", "backend:torch:scipy", "backend:jax:scipy",
+                       "vectorized", "vectorized_per_node_delay")
 
     def strategy(self, ctx):
         @st.composite
         def case(draw):
             spec, pairs = add_past_terms(draw, base_strategy(draw))
+            # a delay that is a parameter may differ between the nodes that share the operator (per-node override)
+            for o, od in sorted(spec["ops"].items()):
+                for v in od["vars"]:
+                    if v[0].startswith("tau_d") and v[1] == "const":
+                        users = sorted(nt for nt, d in spec["ntypes"].items() if o in d["ops"])
+                        if len(users) >= 2 and draw(st.booleans()):
+                            nt = users[draw(st.integers(0, len(users) - 1))]
+                            other = draw(st.sampled_from([t_ for t_ in DELAYS if t_ != v[2]]))
+                            spec["ntypes"][nt].setdefault("ov", {}).setdefault(o, {})[v[0]] = other
             return {"spec": spec, "cfg": {"solver": draw(st.sampled_from(["euler", "euler", "scipy"])),
                                           "dt": draw(st.sampled_from([0.01, 0.02, 0.03])),
-                                          "steps": draw(st.integers(20, 60)), "vectorize": False,
+                                          "steps": draw(st.integers(20, 60)), "vectorize": draw(st.sampled_from([False, False, True])),
                                           "coarse": draw(st.sampled_from([8, 10, 15])),
                                           # one case in five runs on another backend's implementation of the solver
                                           "backend": draw(st.sampled_from(["default"] * 8 + ["torch", "jax"]))}}
@@ -408,6 +418,10 @@ class RunArm(Arm):
         lab = [solver]
         if any(abs(d / dt - round(d / dt)) > 1e-6 for d in delays):
             lab.append("delay_not_multiple_of_dt")
+        if cfg.get("vectorize"):
+            lab.append("vectorized")
+            if any(str(k).startswith("tau_d") for nt in spec["ntypes"].values() for ov in (nt.get("ov") or {}).values() for k in ov):
+                lab.append("vectorized_per_node_delay")
         res.labels = lab
         res.nontrivial = len(set(delays)) >= 2 or len(delays) >= 2
         outputs = {f"v{i}": p for i, p in enumerate(sp)}
@@ -418,7 +432,7 @@ class RunArm(Arm):
             res.rejected = "reference not benign"
             return res
         try:
-            df0 = run_circuit(sk, T, dt, dict(outputs), vectorize=False)
+            df0 = run_circuit(sk, T, dt, dict(outputs), vectorize=bool(cfg.get("vectorize")))
             a0 = np.column_stack([np.asarray(df0[f"v{i}"], dtype=float) for i in range(len(sp))])
         except HarnessError:
             raise
@@ -448,7 +462,7 @@ class RunArm(Arm):
             kw = dict(kw, backend=be)
             res.labels.append(f"backend:{be}:{solver}")
         try:
-            df = run_circuit(spec, T, dt, dict(outputs), vectorize=False, solver=solver, **kw)
+            df = run_circuit(spec, T, dt, dict(outputs), vectorize=bool(cfg.get("vectorize")), solver=solver, **kw)
             a = np.column_stack([np.asarray(df[f"v{i}"], dtype=float) for i in range(len(sp))])
         except HarnessError:
             raise
@@ -472,7 +486,7 @@ class RunArm(Arm):
             m = int(cfg.get("coarse", 10))
             if steps >= 2 * m:
                 try:
-                    dfc = run_circuit(spec, T, dt, dict(outputs), vectorize=False, solver=solver, dts=m * dt, **kw)
+                    dfc = run_circuit(spec, T, dt, dict(outputs), vectorize=bool(cfg.get("vectorize")), solver=solver, dts=m * dt, **kw)
                     ac = np.column_stack([np.asarray(dfc[f"v{i}"], dtype=float) for i in range(len(sp))])
                 except HarnessError:
                     raise
